@@ -261,6 +261,8 @@ func styles() []styleSpec {
 		{` fill="red" style="fill:blue"`, ``, ``, with(func(w *want) { w.fill = blue }), "style attribute after presentation attribute", nil},
 		{` style="fill:blue" fill="red"`, ``, ``, with(func(w *want) { w.fill = blue }), "style attribute before presentation attribute (style wins regardless of order)", nil},
 		{``, ``, ` fill="green" stroke="blue" stroke-width="2"`, with(func(w *want) { w.fill = color.RGBA{0, 128, 0, 255}; w.stroke = blue; w.sw = 2 }), "inherited from g", nil},
+		// a group without any attribute (the single space only makes document() write the element), styled by a type selector
+		{``, `g{fill:#f00;stroke:blue;stroke-width:2}`, ` `, with(func(w *want) { w.fill = red; w.stroke = blue; w.sw = 2 }), "type selector on a group that has no attributes", nil},
 		{` fill="red"`, ``, ` fill="green"`, with(func(w *want) { w.fill = red }), "own attribute overrides inherited", nil},
 		{` class="a"`, `.a{fill:blue}`, ``, with(func(w *want) { w.fill = blue }), "class rule", nil},
 		{` class="a" fill="red"`, `.a{fill:blue}`, ``, with(func(w *want) { w.fill = blue }), "class rule beats presentation attribute", nil},
